@@ -684,8 +684,14 @@ func (s *sharedEntryAttributes) NavigateSdcpbPath(ctx context.Context, pathElems
 			return e, nil
 		}
 
-		for _, v := range pathElems[0].Key {
-			e, err = e.Navigate(ctx, []string{v}, false)
+		// the key levels of the tree are sorted by the key names, a map has no order.
+		keyNames := make([]string, 0, len(pathElems[0].Key))
+		for k := range pathElems[0].Key {
+			keyNames = append(keyNames, k)
+		}
+		sort.Strings(keyNames)
+		for _, k := range keyNames {
+			e, err = e.Navigate(ctx, []string{pathElems[0].Key[k]}, false)
 			if err != nil {
 				return nil, err
 			}
